@@ -10,7 +10,7 @@ import (
 func init() {
 	register(PropInfo{
 		ID: "C05",
-		Explanation: "All-paths decision of the structural clauses of C05 in internal/execute/sm/actions (DESIGN.md section 4, C05): (R1) the guard `len(Attempts) > Retries ⇒ ErrPermanent` is the only comparison of those operands and precedes the plugin call on every path (with an uncapped Retry loop it is the only bound); (R2) exactly one attempt is appended per invocation, after the plugin returned, and written (fatal on error) before exec returns; Start/End are stamped around the call; (R3) outcome mapping: timeout ⇒ retryable error returned; a non-nil response is type-checked on every path and a mismatch becomes a permanent error with the response dropped; nil error ⇒ nil, permanent ⇒ wraps ErrPermanent with %w, otherwise the error itself; (R4) the plugin runs under a context derived from WithTimeout(action.Timeout) that is cancelled after the call, and run() races the plugin against that context; (R5) the action machine is Start→GetPlugin→Execute→End with exec called once per Retry iteration. Decides these necessary conditions, not invocation counts as numbers.",
+		Explanation: "All-paths decision of the structural clauses of C05 in internal/execute/sm/actions (DESIGN.md section 4, C05): (R1) the guard `len(Attempts) > Retries ⇒ ErrPermanent` is the only comparison of those operands and precedes the plugin call on every path (with an uncapped Retry loop it is the only bound); (R2) exactly one attempt is appended per invocation, after the plugin returned, and written (fatal on error) before exec returns; Start/End are stamped around the call; (R3) outcome mapping: timeout ⇒ retryable error returned; a non-nil response is type-checked on every path and a mismatch becomes a permanent error with the response dropped; nil error ⇒ nil, permanent ⇒ wraps ErrPermanent with %w, otherwise the error itself; (R4) the plugin runs under a context derived from WithTimeout(action.Timeout) that is cancelled after the call, and run() races the plugin against that context; (R5) the action machine is Start→GetPlugin→Execute→End with exec called once per Retry iteration; (R6) both vaults decode every stored attempt into a value of its own (no memory shared between the attempts of an action). Decides these necessary conditions, not invocation counts as numbers.",
 		NotDecided:  []string{"the number of invocations as a runtime count", "attempt ordering as data (append order is R2)", "start<=end as wall-clock values"},
 		Assumptions: []string{"exponential.Backoff.Retry calls op until it returns nil or an error wrapping ErrPermanent; no attempt cap (read in Azure/retry)"},
 		Rules:       rulesC05,
@@ -245,6 +245,12 @@ func rulesC05(r *Run) {
 	r.Kind("R5", "K1")
 	ruleRunnerGraph(r, "R5")
 	r.Expect("R5", 5)
+
+	// ---- R6: recorded attempts stay distinct records when read back from the vaults
+	r.Kind("R6", "K7")
+	ruleDecodeAttempts(r, "R6", sqlKey("decodeAttempts"))
+	ruleDecodeAttempts(r, "R6", cosKey("decodeAttempts"))
+	r.Expect("R6", 2)
 }
 
 func compositeOf(e ast.Expr) *ast.CompositeLit {
